@@ -18,7 +18,7 @@ INNER = {
 }
 
 
-LIGHT_BODIES = {'gp', 'mix', 'sym2', 'scal', 'grade', 'three', 'rev', 'cgp', 'sqrtname', 'nsq', 'div', 'nest', 'nest2'}
+LIGHT_BODIES = {'gp', 'mix', 'sym2', 'scal', 'grade', 'three', 'rev', 'cgp', 'sqrtname', 'nsq', 'div', 'nest', 'nest2', 'peel'}
 
 
 def sympy_ok(dsc, d):
